@@ -11,7 +11,8 @@ from mc import refmodel as R
 
 LEVEL = "exploration"
 RULE = (
-    "case = payload (unknown-type payloads of every length 2..1023 x 3 fills x 2 numbers; every "
+    "case = payload (unknown-type payloads of every length 2..1023 x 4 fills x 2 numbers; every MSM "
+    "type x mask shapes x spare bytes special to formatting layers, under label options 1, 2, 0; every "
     "corpus payload; text/descriptor types steered to the 8/9/10-bit length boundaries); each is "
     "constructed, serialised, compared with an independently built frame, re-parsed, and its "
     "repr evaluated; non-trivial = message constructed; distinct = distinct payloads"
@@ -93,6 +94,24 @@ def judge(case):
             out.bad("repr-not-evaluable", f"{name}: eval(repr(m)).payload differs")
     except Exception as err:  # pylint: disable=broad-except
         out.bad("repr-not-evaluable", f"{name}: eval(repr(m)) raises {type(err).__name__}: {err}")
+    # the same for a message built with another label option, through each way of building it
+    for lm in (2, 0):
+        for how, make in (("constructor", lambda lm=lm: RTCMMessage(payload=payload, labelmsm=lm)),
+                          ("parse", lambda lm=lm: RTCMReader.parse(want, labelmsm=lm))):
+            try:
+                m2 = make()
+            except Exception:  # pylint: disable=broad-except
+                continue  # reported by C16 / C04
+            try:
+                clone = eval(repr(m2), {"RTCMMessage": RTCMMessage, "__builtins__": {}})  # pylint: disable=eval-used
+                if clone.payload != payload:
+                    out.bad("repr-not-evaluable", f"{name}: eval(repr(m)).payload differs for a message "
+                            f"built by {how} with labelmsm={lm}")
+                if m2.serialize() != want:
+                    out.bad("serialize-noncanonical:labelmsm", f"{name}: labelmsm={lm} changes serialize()")
+            except Exception as err:  # pylint: disable=broad-except
+                out.bad("repr-not-evaluable", f"{name}: repr / eval(repr(m)) raises {type(err).__name__}: "
+                        f"{err} for a message built by {how} with labelmsm={lm}")
     out.obs = core.h64(payload)
     return out
 
@@ -137,7 +156,7 @@ def cases(tier):
     for num in (0, 4095):
         hdr = (num << 4).to_bytes(2, "big")
         for ln in range(2, 1024):
-            for fill in (b"\x00", b"\xff", None):
+            for fill in (b"\x00", b"\xff", None, b"%"):
                 tail = fp[: ln - 2] if fill is None else fill * (ln - 2)
                 yield {"name": f"unk{num}/{ln}", "payload": hdr + tail, "must_parse": True}
     for it in corpus.build(tier):
@@ -148,6 +167,19 @@ def cases(tier):
     for nm, it in items.frames().items():
         if len(it["payload"]) >= 2:
             yield {"name": f"item:{nm}", "payload": it["payload"], "must_parse": True}
+    # every MSM type with spare bytes that are special to string formatting / escaping layers
+    from mc import shapes as S  # pylint: disable=import-outside-toplevel
+
+    for num in pinned.MSM_NUMBERS:
+        for k, shape in enumerate(S.msm_shapes("quick")):
+            for extra in (b"%%", b"%d%s", b"%\x80", b"100%", b"{0}{}", b"\\x00'\"", b"\r\n"):
+                try:
+                    payload, _o, _n = R.build(str(num), shape, "fp", extra=extra)
+                except (R.BadDefinition, R.TooLong):
+                    continue
+                yield {"name": f"{num}#{k}+{extra!r}", "payload": payload, "must_parse": True}
+    for ln in range(22, 120):
+        yield {"name": f"1077%/{ln}", "payload": b"\x43\x50" + b"%" * (ln - 2), "must_parse": False}
     # payloads whose frame has CRC-24Q exactly 000000 (a legitimate value, not a sentinel)
     for ln in (5, 6, 8, 21, 64, 255, 256, 700, 1023):
         for num in (999, 1005, 2000):
